@@ -226,7 +226,7 @@ def run_case(case):
                     if tr is not None:
                         bad("deadline", f"attempt {i}: deadline {tr:.1f}s on a call without default timeout")
                         break
-                elif tr is None or not (per_attempt - 3.0 <= tr <= per_attempt + 1.5):
+                elif tr is None or not (per_attempt - 3.0 - (r.get("stall") or [0.0] * (i + 1))[i] <= tr <= per_attempt + 1.5):
                     bad("deadline", f"attempt {i}: time_remaining {tr}, reference {per_attempt}")
                     break
         viol.extend(v)
@@ -281,6 +281,9 @@ def in_runner(script):
             evs = evs[1:]           # the fetch of the first page is not what is judged
         o["attempts"] = len(evs)
         o["time_remaining"] = [e["time_remaining"] for e in evs]
+        # real seconds between the start of the call and the server seeing each attempt (virtual sleeps take none): on a loaded
+        # machine this is what legitimately eats into the observed deadline
+        o["stall"] = [max(0.0, e["t"] - call.get("_t0", e["t"])) for e in evs]
         o["sleeps"] = list(vt.sleeps[s0:])
         return o
 
@@ -297,6 +300,7 @@ def in_runner(script):
             clients[svc] = lib.grpc_client(svc, srv.target)
         setup(call)
         mark, s0 = srv.mark(), len(vt.sleeps)
+        call["_t0"] = __import__("time").monotonic()
         o = {}
         try:
             ret = getattr(clients[svc], call["method"])(request=lib.mk(call["req_type"], b""), **kwargs_of(call))
@@ -317,6 +321,7 @@ def in_runner(script):
                 ac[svc] = lib.aio_client(svc, srv.target)
             setup(call)
             mark, s0 = srv.mark(), len(vt.sleeps)
+            call["_t0"] = __import__("time").monotonic()
             o = {}
             try:
                 ret = await getattr(ac[svc], call["method"])(request=lib.mk(call["req_type"], b""), **kwargs_of(call))
